@@ -75,7 +75,22 @@ def splice(project, func):
 def discover_stages(project):
     """Every function containing ``<mp>.Process(target=F, args=(...))``."""
     stages = []
+    # helpers that start the worker processes for their caller: `Process(target=<a parameter>, args=<a parameter>)`
+    starters = set()
+    for g in project.py_funcs():
+        ps = set(g.params())
+        for c in own_calls(g.node):
+            if callee_attr(c) == "Process":
+                tg = [k.value for k in c.keywords if k.arg == "target"]
+                if tg and isinstance(tg[0], ast.Name) and tg[0].id in ps:
+                    starters.add(g.qual)
     for f in sorted(project.py_funcs(), key=lambda f: f.qual):
+        if f.qual in starters:
+            continue
+        if starters and any((lambda t: t is not None and t.qual in starters)(resolve_callee(project, f, c)) for c in own_calls(f.node)):
+            # splice the starter into its caller: the stage is the function that owns the queues and the shutdown
+            from sa.model import inline_helpers
+            f = inline_helpers(project, f, lambda owner, call: (lambda t: t if (t is not None and t.qual in starters) else None)(resolve_callee(project, owner, call)))
         procs = [c for c in own_calls(f.node) if callee_attr(c) == "Process"
                  and any(k.arg == "target" for k in c.keywords)]
         if not procs:
@@ -89,6 +104,12 @@ def discover_stages(project):
             st.proc_call = pc
             tgt = [k.value for k in pc.keywords if k.arg == "target"][0]
             st.worker = _resolve_function(project, f, tgt)
+            if st.worker is None and isinstance(tgt, ast.Name):
+                # target=<local bound once to a function> (e.g. the parameter of a spliced-in starter helper)
+                defs_ = [n for n in own_nodes(f.node) if isinstance(n, ast.Assign) and len(n.targets) == 1
+                         and isinstance(n.targets[0], ast.Name) and n.targets[0].id == tgt.id]
+                if len(defs_) == 1:
+                    st.worker = _resolve_function(project, f, defs_[0].value)
             if st.worker is not None:
                 st.worker = splice(project, st.worker)
             args = [k.value for k in pc.keywords if k.arg == "args"]
@@ -116,6 +137,12 @@ def discover_stages(project):
                         and isinstance(c.func.value, ast.Name) and c.args \
                         and isinstance(c.args[0], ast.Name) and c.args[0].id in st.proc_vars:
                     st.worker_lists.add(c.func.value.id)
+            # `workers = <the list filled above>` (e.g. the value a spliced-in starter helper returns)
+            for _round in range(2):
+                for n in own_nodes(f.node):
+                    if isinstance(n, ast.Assign) and len(n.targets) == 1 and isinstance(n.targets[0], ast.Name) and isinstance(n.value, ast.Name) \
+                            and n.value.id in st.worker_lists:
+                        st.worker_lists.add(n.targets[0].id)
             stages.append(st)
     return stages
 
